@@ -6,6 +6,7 @@ import LC.Props.C04
 #print axioms LC.V2Match.matchLess_total
 #print axioms LC.V2Match.mr_sort_order_irrelevant
 #print axioms LC.V2Match.match_order_independent
+#print axioms LC.V2Match.match_equivariant
 #print axioms LC.V2Match.dict_roundtrip
 #print axioms LC.V2Match.dict_add_stable
 #print axioms LC.V2Match.matchLess_fields_current
